@@ -457,8 +457,69 @@ fn keys(run: &mut Run) -> PResult {
     Ok(())
 }
 
+/// call sequences over related card-or-blank hands (A B A C B A), every entry point per call
+fn sequences(run: &mut Run) -> PResult {
+    use proptest::prelude::*;
+    let st = engine::RStats::new();
+    let cases: u32 = (if run.tier == Tier::Thorough { 400_000 } else { 60_000 }) / if run.is_twin() { 4 } else { 1 };
+    // a hand of n slots over the 53 symbols, then two edits: (slot, new symbol or copy of another slot)
+    let strat = (5usize..=7, proptest::collection::vec(0u8..53, 7), proptest::collection::vec((0usize..7, prop_oneof![3 => Just(0u8), 3 => 1u8..53, 2 => 100u8..107]), 2));
+    let build = |(n, syms, edits): (usize, Vec<u8>, Vec<(usize, u8)>)| -> Vec<Vec<u32>> {
+        let a: Vec<u32> = syms[..n].iter().map(|s| sym(*s)).collect();
+        let mut hands = vec![a.clone()];
+        let mut cur = a;
+        for (slot, e) in edits {
+            let s = slot % n;
+            cur[s] = if e >= 100 { cur[(e as usize - 100) % n] } else { sym(e) };
+            hands.push(cur.clone());
+        }
+        vec![hands[0].clone(), hands[1].clone(), hands[0].clone(), hands[2].clone(), hands[1].clone(), hands[0].clone()]
+    };
+    let seq_check = |seq: &[Vec<u32>]| -> Result<(), String> {
+        let _ = examine(&[card::DECK[0], card::DECK[14], card::DECK[28], card::DECK[42], card::DECK[4]]);
+        for (i, h) in seq.iter().enumerate() {
+            examine(h).map_err(|(c, m)| format!("call {} of a sequence: {}: {}", i + 1, c, m))?;
+        }
+        Ok(())
+    };
+    let res = crate::engine::pt::run(run.seed, 0xC05_5E, cases, &strat, |v| {
+        let seq = build(v);
+        st.note(seq.iter().fold(7u64, |h, x| engine::mix(h ^ engine::hash_words(x))), true, Some(&format!("size {}", seq[0].len())), || json!({"profile": profile(), "sequence": seq.iter().map(|h| card::render_hand(h)).collect::<Vec<_>>()}));
+        seq_check(&seq).map_err(|e| {
+            st.freeze();
+            e
+        })
+    });
+    st.flush(run, "call sequences over related card-or-blank hands (A B A C B A)", "proptest (histories)", None, "edits: blank a slot, replace a card, copy another slot; every entry point per call");
+    if let Err(f) = res {
+        let seq = build(f.value);
+        let mut cur = seq.clone();
+        for n in 1..=seq.len() {
+            if seq_check(&seq[..n]).is_err() {
+                cur = seq[..n].to_vec();
+                break;
+            }
+        }
+        let mut i = 0;
+        while cur.len() > 1 && i + 1 < cur.len() {
+            let mut cand = cur.clone();
+            cand.remove(i);
+            if seq_check(&cand).is_err() {
+                cur = cand;
+            } else {
+                i += 1;
+            }
+        }
+        let m = seq_check(&cur).err().unwrap_or_else(|| "not reproducible".into());
+        let sig = cur.iter().map(|h| card::render_hand(h)).collect::<Vec<_>>().join(" ; ");
+        return run.violation("C05.sequence", &sig, json!({"profile": profile(), "sequence": cur.iter().map(|h| hand_json(h)).collect::<Vec<_>>()}), &m);
+    }
+    Ok(())
+}
+
 fn run_profile(run: &mut Run) -> PResult {
     let thorough = run.tier == Tier::Thorough;
+    sequences(run)?;
     multisets::<5, F5>(run, 1)?;
     multisets::<6, F6>(run, 1)?;
     multisets::<7, F7>(run, if thorough { 1 } else { 16 })?;
@@ -468,7 +529,7 @@ fn run_profile(run: &mut Run) -> PResult {
 }
 
 pub fn run(run: &mut Run) -> PResult {
-    run.rule = "alphabet = 52 model cards + blank, repetition allowed: every multiset of 5 and 6 slots, (quick: seeded 1-in-16 stratum of / thorough: every) multiset of 7 slots, each also under one seeded slot order; every ordered 5-slot array (53^5); every key below 2^30 (thorough 2^32) and structured 64-bit keys for Five::find_in_products; all five ranking entry points per hand; both build profiles (checked = overflow checks + debug assertions, unchecked = neither). Oracle: normal return everywhere; five slots with a blank => value 0 and Invalid name/class; hands of distinct real cards => model ordinal. Non-trivial = hand contains a blank or a repeated card / key not in the product table; distinct = distinct multisets (arrays, keys)".into();
+    run.rule = "alphabet = 52 model cards + blank, repetition allowed: every multiset of 5 and 6 slots, (quick: seeded 1-in-16 stratum of / thorough: every) multiset of 7 slots, each in ascending, descending and one seeded slot order; every ordered 5-slot array (53^5); every key below 2^30 (thorough 2^32) and structured 64-bit keys for Five::find_in_products; all five ranking entry points per hand; both build profiles (checked = overflow checks + debug assertions, unchecked = neither). Oracle: normal return everywhere; five slots with a blank => value 0 and Invalid name/class; hands of distinct real cards => model ordinal. Non-trivial = hand contains a blank or a repeated card / key not in the product table; distinct = distinct multisets (arrays, keys)".into();
     run.assume("opt-level 0 is assumed equivalent to the two opt-level-3 profiles executed (ckc-rs has no cfg(debug_assertions) code)");
     run.assume("no value is asserted for six/seven-slot hands containing blanks or for hands with repeated cards: the property only demands a normal return there");
     run.assume("non-termination cannot be decided by testing: a hang is reported as INCONCLUSIVE (exit 2) by the watchdog");
@@ -491,6 +552,14 @@ fn thorough_all(t: Tier) -> bool {
 pub fn check_case(clause: &str, case: &Value) -> Result<(), String> {
     match clause {
         "C05.key_no_panic" => key_examine(case["key"].as_u64().ok_or("key missing")?),
+        "C05.sequence" => {
+            let _ = examine(&[card::DECK[0], card::DECK[14], card::DECK[28], card::DECK[42], card::DECK[4]]);
+            for (i, h) in case["sequence"].as_array().ok_or("sequence")?.iter().enumerate() {
+                let ws = engine::parse_words(&h["words"])?;
+                examine(&ws).map_err(|(c, m)| format!("call {} of the sequence: {}: {}", i + 1, c, m))?;
+            }
+            Ok(())
+        }
         "C05.no_panic" | "C05.blank_five_invalid" | "C05.clean_value" => {
             let ws = engine::parse_words(&case["words"])?;
             for w in &ws {
